@@ -395,6 +395,13 @@ class ExprMixin:
         from .ty import VSet
         if isinstance(container, VSet):
             container = container.lst  # membership in set(xs) is membership in xs
+        if isinstance(container, VOpaque):
+            # an opaque container type may declare its membership test: @external("<Type>.__contains__")
+            from .ex_call import EXTERNALS
+            h = EXTERNALS.get(f"{container.ty.name}.__contains__")
+            if h is not None:
+                self.external_used.add(f"{container.ty.name}.__contains__")
+                return truthy(h(self, [container, item], {}, lineno))
         if isinstance(container, VConst):
             py = container.py
             if isinstance(py, (set, frozenset, tuple, list, dict)):
@@ -637,6 +644,13 @@ class ExprMixin:
         if isinstance(obj, VOpt):
             self.safety(z3.Not(obj.isnone), "none subscript", lineno)
             obj = obj.val
+        if isinstance(obj, VOpaque):
+            # an opaque container type may declare its subscript: @external("<Type>.__getitem__")
+            from .ex_call import EXTERNALS
+            h = EXTERNALS.get(f"{obj.ty.name}.__getitem__")
+            if h is not None:
+                self.external_used.add(f"{obj.ty.name}.__getitem__")
+                return h(self, [obj, key], {}, lineno)
         ck = concrete_of(key)
         if isinstance(obj, VRec):
             if ck is not NOCONST and ck in obj.fields:
@@ -753,6 +767,8 @@ class ExprMixin:
             return self._comp_nested(e, fr)
         g = e.generators[0]
         it = self.eval(g.iter, fr)
+        if isinstance(it, VList) and getattr(it, "assoc", False):
+            it = self.list_method(it, "keys", [], {}, e.lineno)  # iterating a dict yields its keys
         items = self.concrete_items(it)
         sub = Frame(fr.module, fr.func, parent=fr, is_spec=fr.is_spec)
         sub.contract = fr.contract
